@@ -56,6 +56,13 @@ func ValidRecipient(s string) bool {
 	return err == nil
 }
 
+// BlockedRecipients are addresses the chain's bank module blocks from receiving funds. The
+// property does not say whether a fee to such an address is paid or refused: Either.
+var BlockedRecipients = map[string]bool{}
+
+// OrbiterAddress is the bech32 address of the orbiter module account.
+var OrbiterAddress string
+
 // Fees computes the model result of a fee action on amount a.
 //
 // Canonical inputs get a two-sided verdict. Inputs whose treatment the property does not fix
@@ -74,6 +81,11 @@ func Fees(a *big.Int, fees []spec.Fee) FeeResult {
 		}
 		if !ValidRecipient(f.Recipient) {
 			return FeeResult{Verdict: MustRefuse, Reason: "invalid recipient"}
+		}
+		if ra, err := sdk.AccAddressFromBech32(f.Recipient); err == nil && (BlockedRecipients[ra.String()] || ra.String() == OrbiterAddress) {
+			// blocked by the bank module, or the orbiter account itself (a fee that cannot leave
+			// the account; C01 then demands a refusal): the fee rule alone fixes no outcome
+			either = "blocked recipient or the orbiter account"
 		}
 		var amt *big.Int
 		if f.IsBPS {
